@@ -978,6 +978,40 @@ func (se *shapeEval) typeShape1(t types.Type, which string) *Shape {
 		et := info.TypeOf(ix)
 		return et, wrapped, ""
 	}
+	// closureBound: the K of the guard `if i < K { return &x[i] }` (or `if i >= K { return nil }`) in an element accessor
+	closureBound := func(fl ast.Expr) (Poly, bool) {
+		lit, ok := ast.Unparen(fl).(*ast.FuncLit)
+		if !ok || lit.Type.Params == nil || len(lit.Type.Params.List) != 1 || len(lit.Type.Params.List[0].Names) != 1 {
+			return nil, false
+		}
+		iv := info.Defs[lit.Type.Params.List[0].Names[0]]
+		var bound Poly
+		found := false
+		ast.Inspect(lit.Body, func(m ast.Node) bool {
+			is, ok := m.(*ast.IfStmt)
+			if !ok || found {
+				return true
+			}
+			be, ok := ast.Unparen(is.Cond).(*ast.BinaryExpr)
+			if !ok {
+				return true
+			}
+			var k ast.Expr
+			if id, ok := ast.Unparen(be.X).(*ast.Ident); ok && info.Uses[id] == iv && (be.Op == token.LSS || be.Op == token.GEQ) {
+				k = be.Y
+			} else if id, ok := ast.Unparen(be.Y).(*ast.Ident); ok && info.Uses[id] == iv && (be.Op == token.GTR || be.Op == token.LEQ) {
+				k = be.X
+			}
+			if k == nil {
+				return true
+			}
+			if p, ok := se.intExpr(env, k); ok {
+				bound, found = p, true
+			}
+			return true
+		})
+		return bound, found
+	}
 	switch {
 	case which == "Deserialize" && (fname == "Container" || fname == "FixedLenContainer") && isZtyp(f),
 		which == "HashTreeRoot" && fname == "HashTreeRoot" && isZtyp(f):
@@ -1080,6 +1114,10 @@ func (se *shapeEval) typeShape1(t types.Type, which string) *Shape {
 			es = packWidth(es, 64, name)
 		} else if fname == "Uint8VectorHTR" {
 			es = packWidth(es, 8, name)
+		}
+		// the accessor hands out elements below its own bound only: that bound is how many elements are really hashed
+		if kb, ok := closureBound(call.Args[0]); ok && !polyEq(kb, n) {
+			return &Shape{K: "vector", Elem: es, N: kb, Src: name + " (the element accessor stops at " + kb.String() + ", the hasher is told " + n.String() + ")"}
 		}
 		return &Shape{K: "vector", Elem: es, N: n, Src: name}
 	}
